@@ -4,6 +4,7 @@ One request per line on stdin, one reply line per request on stdout.
 -/
 import SnapraidVerif.Raid.Spec
 import SnapraidVerif.Codec.Content
+import SnapraidVerif.Codec.Save
 
 open SnapraidVerif SnapraidVerif.GF SnapraidVerif.Raid SnapraidVerif.Codec
 
@@ -95,6 +96,8 @@ def handle (toks : List String) : String :=
       | some p => s!"ok v={p.version} bs={p.ctx.blockSize} bmax={p.ctx.blockMax} hs={p.ctx.hashSize} | " ++
           String.intercalate " | " (p.recs.map dumpRec)
     | _, _ => "bad-op"
+  | ["content-dump", _] => "reject"
+  | ["content-reser", _] => "reject"
   | ["content-reser", bs, hex] =>
     match bs.toNat?, parseHex8 hex with
     | some bs, some bytes =>
@@ -102,6 +105,22 @@ def handle (toks : List String) : String :=
       | none => "reject"
       | some p => hex8 (reserialize p)
     | _, _ => "bad-op"
+  | "save-accepts" :: ops =>
+    let parsed := ops.map fun t =>
+      match t.toList with
+      | 'c' :: r => (String.ofList r).toNat?.map Save.SOp.create
+      | 'f' :: r => (String.ofList r).toNat?.map Save.SOp.fsync
+      | 'x' :: r => (String.ofList r).toNat?.map Save.SOp.close
+      | 'v' :: r => (String.ofList r).toNat?.map Save.SOp.verify
+      | 'r' :: r => (String.ofList r).toNat?.map Save.SOp.rename
+      | 'w' :: r => match (String.ofList r).splitOn ":" with
+        | [a, b] => match a.toNat?, b.toNat? with
+          | some a, some b => some (Save.SOp.write a b)
+          | _, _ => none
+        | _ => none
+      | _ => none
+    if parsed.any (·.isNone) then "bad-op" else
+    if Save.accepts (parsed.filterMap id) then "accepted" else "rejected"
   | ["crc32c", hex] =>
     match parseHex8 hex with
     | some bytes => toString (crc32c 0 bytes).toNat
